@@ -332,6 +332,15 @@ DriftViol(ev) ==
             \cup
             (IF obsSame # model
              THEN {Vio({"DRIFT"}, "model predicted another decapsulation matrix", "drift", <<ev.op, model, obsSame>>)} ELSE {})
+            \cup
+            (IF Has(ev, "model_shape") /\ Has(ev, "shape") /\ ev.model_shape.msk # ev.shape.msk
+             THEN {Vio({"DRIFT"}, "model predicted other chain lengths / flags / flavours of the master key", "drift",
+                       <<ev.op, ev.model_shape.msk, ev.shape.msk>>)} ELSE {})
+            \cup
+            (IF Has(ev, "model_shape") /\ Has(ev, "shape") /\ Has(ev.model_shape, "usk") /\ Has(ev.shape, "usk")
+                /\ ev.model_shape.usk # ev.shape.usk
+             THEN {Vio({"DRIFT"}, "model predicted other chain lengths of the user key", "drift",
+                       <<ev.op, ev.model_shape.usk, ev.shape.usk>>)} ELSE {})
     ELSE {}
 
 \* implementation identifiers of the attributes the abstract state knows
